@@ -1208,7 +1208,7 @@ class NamespaceManager(dict):
                 for namespace in self.values():
                     if str_value.startswith(namespace.uri):
                         #  create a QName with the namespace
-                        return namespace[str_value.replace(namespace.uri, "")]
+                        return namespace[str_value[len(namespace.uri) :]]
         elif self._default:
             # create and return an identifier in the default namespace
             return self._default[qname]
